@@ -915,7 +915,10 @@ class PaneConverter(Converter[PaneBaseT]):
             if field.default is not _MISSING:
                 values[field.name] = field.default
             elif field.default_factory is not None:
-                values[field.name] = field.default_factory()
+                try:
+                    values[field.name] = field.default_factory()
+                except Exception:  # error in the user's factory (as in __post_init__, below)
+                    raise ParseInterrupt() from None
             else:
                 raise ParseInterrupt()  # missing field
 
